@@ -420,7 +420,11 @@ Definition do_step (st : store) (nd : node) (expired : bool) (pick : N) : store 
       | ODelete _ =>
           match aget R d with
           | None => (st, finish nd1 ROk, false)
-          | Some _ => (st, set_pc (set_content nd1 (adel R d)) (PFinWrite fa prevv), false)
+          | Some e =>
+              (* only the entry marked deleted in step 2 is removed: the database may have been created again by a
+                 concurrent writer once its config document was gone (repair cd27b43; [do_step_old] is the code before) *)
+              if negb (is_deleted (rv_ver (e_cur e))) then (st, finish nd1 ROk, false)
+              else (st, set_pc (set_content nd1 (adel R d)) (PFinWrite fa prevv), false)
           end
       | _ =>
           match remove_prev R d prevv with
@@ -440,6 +444,19 @@ Definition do_step (st : store) (nd : node) (expired : bool) (pick : N) : store 
   | PDone _ => (st, nd, false)
   end.
 
+(* DeleteConfig's finalize BEFORE the repair cd27b43: removeDatabase on whatever entry the database has *)
+Definition do_step_old (st : store) (nd : node) (expired : bool) (pick : N) : store * node * bool :=
+  match n_pc nd, n_op nd with
+  | PFinGet fa prevv, ODelete d =>
+      let nd1 := set_reg nd (read_reg st) in
+      let R := sn_reg (n_reg nd1) in
+      match aget R d with
+      | None => (st, finish nd1 ROk, false)
+      | Some _ => (st, set_pc (set_content nd1 (adel R d)) (PFinWrite fa prevv), false)
+      end
+  | _, _ => do_step st nd expired pick
+  end.
+
 (* ---------- systems ---------- *)
 Inductive event := Step (i : nat) (expired : bool) (pick : N) | Crash (i : nat).
 
@@ -454,13 +471,13 @@ Fixpoint set_nth {A} (i : nat) (x : A) (l : list A) : list A :=
 
 Definition is_done (nd : node) : bool := match n_pc nd with PDone _ => true | _ => false end.
 
-Definition step (w : world) (e : event) : world :=
+Definition step_with (ds : store -> node -> bool -> N -> store * node * bool) (w : world) (e : event) : world :=
   match e with
   | Step i expired pick =>
       match nth_error (w_nodes w) i with
       | Some nd =>
           if n_crashed nd || is_done nd then w
-          else let '(st', nd', bad) := do_step (w_st w) nd expired pick in
+          else let '(st', nd', bad) := ds (w_st w) nd expired pick in
                W st' (set_nth i nd' (w_nodes w)) (w_bad w || bad)
       | None => w
       end
@@ -470,10 +487,14 @@ Definition step (w : world) (e : event) : world :=
       | None => w
       end
   end.
+Definition step (w : world) (e : event) : world := step_with do_step w e.
+Definition step_old (w : world) (e : event) : world := step_with do_step_old w e.
 
 Definition init_world (st : store) (ops : list opk) : world := W st (map init_node ops) false.
 Definition run_from (st : store) (ops : list opk) (evs : list event) : world := fold_left step evs (init_world st ops).
 Definition run (ops : list opk) (evs : list event) : world := run_from init_store ops evs.
+(* the same system with the delete finalize of the code before the repair *)
+Definition run_old (ops : list opk) (evs : list event) : world := fold_left step_old evs (init_world init_store ops).
 
 Definition result_of (nd : node) : option res :=
   if n_crashed nd then None else match n_pc nd with PDone r => Some r | _ => None end.
